@@ -4,7 +4,10 @@ Writes Gen/SetterDecls.lean from the AST of the working tree (VERIF_REPO):
   * every property created with make_prop_val_node / make_prop_pointer in montepy/**.py
     (class, property, hidden_param, whether `types` is absent / the empty tuple / given, the names in
     `types`, base_type, validator, deletable);
-  * the ORDER of the statements of both setter templates in montepy/utilities.py as step tags.
+  * the ORDER of the observable effects of both setter templates in montepy/utilities.py as step tags, OBSERVED by
+    running the generated setter on a probe object (since round 7; the first version classified the statements of
+    the AST and raised a no-failing-input-found alarm on a behaviour-preserving rewrite that moved the resolution
+    of the empty `types` tuple into a helper function).
 Theorem C14_generated (Props/C14.lean) is stated over these step lists, so a source edit that assigns
 before validating changes this file and re-opens the proof.
 """
@@ -99,68 +102,97 @@ def collect_decls():
     return decls
 
 
-def _contains(node, pred):
-    return any(pred(n) for n in ast.walk(node))
-
-
-def classify(stmt):
-    """one statement of a setter template -> step tag"""
-    is_call_to = lambda n, name: isinstance(n, ast.Call) and isinstance(n.func, ast.Name) and n.func.id == name
-    if isinstance(stmt, ast.Nonlocal):
-        return None  # a declaration, not a step
-    if isinstance(stmt, ast.Expr) and isinstance(stmt.value, ast.Constant):
-        return None  # docstring
-    if isinstance(stmt, ast.If):
-        if _contains(stmt, lambda n: isinstance(n, ast.Raise)):
-            if len(stmt.body) == 1 and isinstance(stmt.body[0], ast.Raise) and _contains(
-                stmt.test, lambda n: is_call_to(n, "isinstance")
-            ):
-                return "isinstance"
-            return "other"
-        if len(stmt.body) == 1 and not stmt.orelse:
-            b = stmt.body[0]
-            if isinstance(b, ast.Assign) and len(b.targets) == 1 and isinstance(b.targets[0], ast.Name):
-                tgt = b.targets[0].id
-                if tgt == "types":
-                    return "latchTypes"  # assignment to the closure variable shared by all instances
-                if tgt == "value" and is_call_to(b.value, "base_type"):
-                    return "convert"
-                if tgt != "value" and _contains(b.value, lambda n: is_call_to(n, "type")):
-                    return "resolveTypes"  # a local variable: no state change
-            if isinstance(b, ast.Expr) and is_call_to(b.value, "validator"):
-                return "validate"
-        return "other"
-    if isinstance(stmt, ast.Assign) and len(stmt.targets) == 1:
-        tgt = stmt.targets[0]
-        if isinstance(tgt, ast.Name):
-            if is_call_to(stmt.value, "getattr"):
-                return "fetch"
-            if isinstance(stmt.value, ast.Name) and tgt.id != "types":
-                return "resolveTypes"  # local alias such as accepted_types = types
-            return "other"
-        if isinstance(tgt, ast.Attribute) and tgt.attr == "value":
-            return "assign"
-        return "other"
-    if isinstance(stmt, ast.Expr) and is_call_to(stmt.value, "setattr"):
-        return "assign"
-    return "other"
-
-
 def template_steps(maker):
-    with open(os.path.join(REPO, "montepy", "utilities.py")) as fh:
-        tree = ast.parse(fh.read())
-    for fn in tree.body:
-        if isinstance(fn, ast.FunctionDef) and fn.name == maker:
-            for sub in ast.walk(fn):
-                if isinstance(sub, ast.FunctionDef) and sub.name == "setter":
-                    nonlocal_types = any(isinstance(s, ast.Nonlocal) and "types" in s.names for s in sub.body)
-                    steps = [classify(s) for s in sub.body]
-                    steps = [s for s in steps if s]
-                    if not nonlocal_types:
-                        # without `nonlocal types` an assignment to `types` would be a local: not a latch
-                        steps = ["resolveTypes" if s == "latchTypes" else s for s in steps]
-                    return steps
-    return ["other"]
+    """The order of the observable effects of a setter template, OBSERVED by running the setter the working tree
+    generates on a probe object (not parsed: a harmless rewrite of utilities.py - a helper function, renamed locals,
+    a restructured condition - leaves it unchanged, a reordering of validation and assignment changes it).
+
+    Events: `isinstance` (the type check consults `types`), `convert` (base_type is called), `validate` (the
+    validator is called), `assign` (the hidden node's value / the hidden attribute is written).  `latchTypes` is
+    reported in front when an empty `types` tuple is resolved once and kept for later instances (observed by
+    setting the property on an instance of a second subclass)."""
+    import importlib
+    import sys
+
+    if REPO not in sys.path:
+        sys.path.insert(0, REPO)
+    try:
+        make = getattr(importlib.import_module("montepy.utilities"), maker)
+        log = []
+
+        class LogMeta(type):
+            def __instancecheck__(cls, inst):
+                log.append("isinstance")
+                return isinstance(inst, (Raw, Converted))
+
+        class Accepted(metaclass=LogMeta):
+            pass
+
+        class Raw:
+            pass
+
+        class Converted:
+            def __init__(self, raw):
+                log.append("convert")
+
+        def validator(self, value):
+            log.append("validate")
+
+        class Node:
+            def __init__(self):
+                self._v = None
+
+            @property
+            def value(self):
+                return self._v
+
+            @value.setter
+            def value(self, v):
+                log.append("assign")
+                self._v = v
+
+        class Probe:
+            def __init__(self):
+                object.__setattr__(self, "_x", Node())
+
+            def __setattr__(self, k, v):
+                if k == "_x":
+                    log.append("assign")
+                object.__setattr__(self, k, v)
+
+            @make("_x", Accepted, Converted, validator)
+            def x(self):
+                pass
+
+        Probe().x = Raw()
+        steps = []
+        for ev in log:
+            if not steps or steps[-1] != ev:
+                steps.append(ev)
+
+        # an empty `types` tuple stands for type(self) of each call: is it latched by the first call?
+        class Base:
+            def __init__(self):
+                object.__setattr__(self, "_y", Node())
+
+            @make("_y", ())
+            def y(self):
+                pass
+
+        class A(Base):
+            pass
+
+        class B(Base):
+            pass
+
+        A().y = A()
+        try:
+            B().y = B()
+        except TypeError:
+            steps = ["latchTypes"] + steps
+        return steps or ["other"]
+    except Exception:  # the probe itself failed: nothing is known about the order
+        return ["other"]
 
 
 def lstr(s):
